@@ -116,6 +116,7 @@ HwLocal = _make_local()
 HwFunctional = HwBase("HwFunctional", {"Red": 1, "Green": 2, "Blue": 9})
 HwFunctionalPairs = HwBase("HwFunctionalPairs", [("Up", 0), ("Down", 253)])
 HwFunctionalNames = HwBase("HwFunctionalNames", "Alpha Beta Gamma", start=5)
+HwFunctionalZero = HwBase("HwFunctionalZero", ["Nil", "One", "Two"], start=0)
 '''
 HOOKED = [
     ("HwMissingHook", [(0, "North"), (1, "South")], "hw/missing-hook"),
@@ -127,6 +128,7 @@ HOOKED = [
     ("HwFunctional", [(1, "Red"), (2, "Green"), (9, "Blue")], "hw/functional-api"),
     ("HwFunctionalPairs", [(0, "Up"), (253, "Down")], "hw/functional-api"),
     ("HwFunctionalNames", [(5, "Alpha"), (6, "Beta"), (7, "Gamma")], "hw/functional-api"),
+    ("HwFunctionalZero", [(0, "Nil"), (1, "One"), (2, "Two")], "hw/functional-api"),
 ]
 SPECIAL = [0, 1, 2, 3, 251, 252, 253, 254, 255, 256, 64007, 64008, 64009, 64010, 16194276, 16194277, 253 ** 4 - 1,
            253 ** 4, 2 ** 31, 2 ** 63, 2 ** 64 + 1, -1, -2, -253]
